@@ -14,6 +14,7 @@
 -/
 import MdwModel.Model.Exception
 import MdwModel.Theorems.CtxLayout
+import MdwModel.Theorems.Image
 namespace Mdw
 
 /-- **C07 (IP window).** -/
@@ -98,5 +99,29 @@ theorem C07_blocks_complete (stack window : Option Desc) :
   · cases stack <;> simp [threadBlocks]
 
 example : ipWindow [⟨0x1000, 0x1000, 0x1000, 0x2000, 0, 5, none⟩] 0x1010 = some (0x1000, 0x90) := by decide
+
+
+-- the whole image ----------------------------------------------------------------------------------------------------
+
+/-- **C07 (image: the list).** in the model's image of any content the memory list published in directory slot 2 is
+    the serialised list of registered blocks -/
+theorem C07_image_list (d : DumpIn) :
+    (dumpAcc d).dir[2]? = some ⟨ST_MEMORY_LIST, 4 + 16 * (acc3 d).blocks.length, (acc3 d).pos⟩ ∧
+    At (dumpBytes d) (acc3 d).pos (memoryListStream (acc3 d).blocks) := Image_memory_list d
+
+/-- **C07 (image: stacks and the instruction-pointer window).** every captured stack and every window is a block of
+    that list, and the image holds the captured bytes at the block's location -/
+theorem C07_image_thread_regions (d : DumpIn) (k : Nat) (t : DThread) (hk : d.threads[k]? = some t) :
+    (∀ s b, t.stack = some (s, b) →
+      (⟨s, b.length, threadPos d k⟩ : Desc) ∈ (acc3 d).blocks ∧ At (dumpBytes d) (threadPos d k) b) ∧
+    (∀ s b, t.window = some (s, b) →
+      (⟨s, b.length, threadPos d k + t.stackLen⟩ : Desc) ∈ (acc3 d).blocks ∧ At (dumpBytes d) (threadPos d k + t.stackLen) b) :=
+  Image_thread_block d k t hk
+
+/-- **C07 (image: application regions).** every application region that was read is a block with exactly the
+    requested address and the length read, and the image holds its bytes at the block's location -/
+theorem C07_image_app_regions (d : DumpIn) (j : Nat) (a : Nat) (b : Bytes) (hj : d.app[j]? = some (a, b)) :
+    (⟨a, b.length, (acc2 d).pos + appOff d.app j⟩ : Desc) ∈ (acc3 d).blocks ∧
+    At (dumpBytes d) ((acc2 d).pos + appOff d.app j) b := Image_app_block d j a b hj
 
 end Mdw
